@@ -45,7 +45,7 @@ PALETTE = [[30, 53, 64, 100], [31, 53, 77, 120], [40, 60, 90, 150], [47, 53, 113
 
 def shards(tier):
     k = 1 if tier == "quick" else 25
-    return ([("cheb", 2500 * k)] * 5 + [("fourier%d" % i, 500 * k) for i in range(7)] + [("fval", 3000 * k)] * 4)
+    return ([("cheb", 1500 * k)] * 5 + [("fourier%d" % i, 500 * k) for i in range(7)] + [("fval", 2000 * k)] * 4)
 
 
 # ------------------------------------------------------------------------------------------------ generation
